@@ -6,7 +6,7 @@
    * the REGEX PARSERS over the text SQLite stores in sqlite_master.sql, as hand-written matchers with
      Python `re` semantics (leftmost, the optional CONSTRAINT group tried first, lazy `.+?` that extends one
      character at a time and retries the continuation, `.` never matches a newline, re.I):
-       UNIQUE_PATTERN  (?:CONSTRAINT\s+(?:"(.+?)"|(\w+))\s+)?UNIQUE\s*\((.+?)\)          (get_unique_constraints)
+       UNIQUE_PATTERN  (?:CONSTRAINT\s+(?:"(.+?)"|([\w$]+))\s+)?UNIQUE\s*\((.+?)\)       (get_unique_constraints)
        _find_cols_in_sig  (?:"(.+?)")|([a-z0-9_]+)
      (the same CONSTRAINT-name group opens FK_PATTERN of get_foreign_keys);
    * the join of get_unique_constraints with the sqlite_autoindex_* signatures (PRAGMA index_list/index_info -
@@ -110,7 +110,9 @@ Definition uq_tail (t : str) : option (str * str) :=
                end
   | None => None
   end.
-(* CONSTRAINT\s+(?:"(.+?)"|(\w+))\s+ <tail>   ->  (name, what the tail returns) *)
+(* CONSTRAINT\s+(?:"(.+?)"|([\w$]+))\s+ <tail>   ->  (name, what the tail returns); the name goes through
+   _constraint_name(): a quoted capture has its doubled double-quotes collapsed (str.replace) *)
+Definition barec (c : N) : bool := wordc uni c || (c =? 36).
 Definition named {R} (tail : str -> option R) (t : str) : option (str * R) :=
   match ci_prefix kwCONSTRAINT t with
   | Some t1 =>
@@ -122,8 +124,8 @@ Definition named {R} (tail : str -> option R) (t : str) : option (str * R) :=
                       | [] => None
                       end in
           match alt1 with
-          | Some x => Some x
-          | None => let '(w, t3) := span (wordc uni) t2 in
+          | Some (nm, x) => Some (undouble dq nm, x)
+          | None => let '(w, t3) := span barec t2 in
                     match w with
                     | [] => None
                     | _ => match K t3 with Some x => Some (w, x) | None => None end
